@@ -229,8 +229,19 @@ func decodedLengthOK(v ssa.Value) bool {
 	if _, ok := v.(*ssa.Const); ok {
 		return true
 	}
+	// the decoding may sit in a one-expression helper (uint24At(b) = uint32(b[0])<<16 | ...): judge its expression
+	if cl, ok := v.(*ssa.Call); ok {
+		if ret, _ := pureExprHelper(cl); ret != nil {
+			return decodedLengthOK(ret)
+		}
+	}
 	var terms func(x ssa.Value) []ssa.Value
 	terms = func(x ssa.Value) []ssa.Value {
+		if cl, ok := x.(*ssa.Call); ok {
+			if ret, _ := pureExprHelper(cl); ret != nil {
+				return terms(ret)
+			}
+		}
 		if b, ok := x.(*ssa.BinOp); ok && (b.Op.String() == "|" || b.Op.String() == "+") {
 			return append(terms(b.X), terms(b.Y)...)
 		}
